@@ -733,6 +733,13 @@ func edgeBlocked(fl *Flow, b, s *ssa.BasicBlock, blocked func([]Fact) bool, dept
 			}
 		}
 	}
+	// the verdict of a (value, ok) helper: the last result, a boolean
+	boolIdx := 0
+	if ex, isEx := cond.(*ssa.Extract); isEx && !errVerdict && types.Identical(ex.Type(), types.Typ[types.Bool]) {
+		if c2, isCall := ex.Tuple.(*ssa.Call); isCall && ex.Index == c2.Type().(*types.Tuple).Len()-1 {
+			cond, boolIdx = c2, ex.Index
+		}
+	}
 	call, ok := cond.(*ssa.Call)
 	if !ok {
 		return false
@@ -746,8 +753,10 @@ func edgeBlocked(fl *Flow, b, s *ssa.BasicBlock, blocked func([]Fact) bool, dept
 		if errIdx != res.Len()-1 {
 			return false
 		}
-	} else if res.Len() != 1 || !types.Identical(res.At(0).Type(), types.Typ[types.Bool]) {
+	} else if boolIdx != res.Len()-1 || !types.Identical(res.At(boolIdx).Type(), types.Typ[types.Bool]) {
 		return false
+	} else {
+		errIdx = boolIdx
 	}
 	cfl := NewFlow(fl.P, cal)
 	args := make([]string, len(call.Call.Args))
